@@ -17,7 +17,10 @@ Step(ev) ==
       E == EmpiricalMatrix(ev.P0, ev.balance, ev.v, ev.y)
       inputPD == ev.has_cholE /\ IsCholesky(ev.cholE, E)
   IN
-  IF ~p0OK THEN R({}, {"X13.prior_inverse_witness_rejected"})
+  \* the prior handed to TLC is the DOCUMENTED one (computed by the harness without the library, verified here)
+  IF ~p0OK \/ (ev.prior_kind = "identity" /\ ~IsIdentity(ev.M0))
+           \/ (ev.prior_kind = "covariance" /\ ~IsCovariancePriorInverse(ev.P0, ev.pts))
+  THEN R({}, {"X13.prior_inverse_witness_rejected"})
   ELSE IF ev.exc # ""
   THEN \* the failure clause: the only admissible failure is RuntimeError; inside the PD region a failure is a violation
        R(G("C13.failure_is_RuntimeError", ev.exc = "RuntimeError")
